@@ -116,6 +116,15 @@ class QueryMonitor:
                 self.probe("refined_without_base")
                 return
             self.probe("refined_judged")
+            # the refined text must activate exactly the assertions the original activated (--cache-solver: `:named` lines);
+            # without them every `(=> |id| c)` is vacuous and the query says nothing about the path
+            base_named = set(re.findall(r":named <(\d+)>", base))
+            got_named = set(re.findall(r":named <(\d+)>", text))
+            if base_named != got_named:
+                self.violations.append(dict(oracle="C11:named-encoding", disc="refined-name-set-differs",
+                                            detail=f"{info['file']}: the original query names {len(base_named)} assertions, the refined one "
+                                                   f"{len(got_named)}; assertions that are not named are not asserted at all"))
+                return
             got = parse(text)
             want = parse(reference_refine(base))
             left = sorted(n for n in uninterpreted_names(got) if re.match(r"f_evm_(bvmul|bvudiv|bvurem|bvsdiv|bvsrem)_\d+$", n))
